@@ -904,6 +904,43 @@ def k_cli(ctx, snap, oracle, stats, samples, nontrivial, violation, thorough):
     # ---------------------------------------------------------------- 4. character constants
     k_consts(ctx, oracle, stats, samples, nontrivial, violation, broken, thorough, qbe)
 
+    # ---------------------------------------------------------------- 4b. string literal OBJECTS: equal-length wide literals with a common beginning
+    # (the string pool may share storage only between literals whose whole contents are equal)
+    POOL = [('const unsigned *', 'U', ['abcd', 'abXY', 'abcd', 'abcD']), ('const unsigned short *', 'u', ['xxxx1', 'xxxx2', 'xxxy1', 'xxxx1']),
+            ('const char *', '', ['same-head-A', 'same-head-B', 'same-head-A']), ('const unsigned char *', 'u8', ['q1', 'q2'])]
+    pool_src = ''
+    pool_want = {}
+    for k, (ty, pre, lits) in enumerate(POOL):
+        for j, l in enumerate(lits):
+            pool_src += '%sp%d_%d = %s"%s";\n' % (ty, k, j, pre, l)
+            pool_want['p%d_%d' % (k, j)] = [ord(c) for c in l] + [0]
+    okpool = True
+    for t in TARGETS:
+        rc, out, err = qbe(pool_src, t)
+        stats['cli_cases'] = stats.get('cli_cases', 0) + 1
+        if rc != 0:
+            okpool = False
+            violation('pointers to string literals rejected on %s: %s' % (t, err[:160]), 'string-pool', t, pool_src.encode(), 'accept')
+            continue
+        datas = {}
+        for dm in re.finditer(r'^data \$(\.Lstring\.\d+) = align \d+ \{ (.*?) ?\}\s*$', out, re.M):
+            body = dm.group(2).strip()
+            mb = re.match(r'^b "((?:[^"\\]|\\[0-7]{3})*)",?$', body)
+            mi = re.match(r'^([bhwl]) ((?:\d+ ?)+),?\s*,?$', body)
+            if mb:
+                datas[dm.group(1)] = (1, 'b', parse_bstring(mb.group(1)), 0)
+            elif mi:
+                datas[dm.group(1)] = (1, mi.group(1), [int(x) for x in mi.group(2).split()], 0)
+        ptr = dict(re.findall(r'^(?:export )?data \$(\w+) = align \d+ \{ l \$([\w.]+), \}', out, re.M))
+        for name, want in sorted(pool_want.items()):
+            d = datas.get(ptr.get(name, ''), None)
+            got = (d[2] + [0] * (d[3] // LETTER_SIZE.get(d[1], 1))) if d and isinstance(d[2], list) else None
+            if got != want:
+                okpool = False
+                violation('the string literal object %s points to holds %r, the literal is %r (%s)' % (name, got, want, t), 'string-pool', t, pool_src.encode(), 'pool')
+                break
+    ctx.ob('K-CLI:string literal objects of equal length with a common beginning keep their own contents (%d literals x %d targets)' % (len(pool_want), len(TARGETS)), okpool)
+
     # ---------------------------------------------------------------- 5. scanner model vs the real tokeniser (-E token dump)
     k_scan(ctx, snap, oracle, stats, violation, broken, thorough)
 
